@@ -358,7 +358,15 @@ func (index *collectionSimpleIndex) Delete(
 	ctx context.Context,
 	doc *client.Document,
 ) error {
+	// Equal elements of an array inside a JSON value make one and the same key (the position
+	// within the array is not part of it). It has been saved once and is deleted once.
+	deleted := make(map[string]struct{})
 	return index.generateKeysAndProcess(ctx, doc, true, func(key keys.IndexDataStoreKey) error {
+		keyStr := string(key.Bytes())
+		if _, ok := deleted[keyStr]; ok {
+			return nil
+		}
+		deleted[keyStr] = struct{}{}
 		return index.deleteIndexKey(ctx, key)
 	})
 }
